@@ -35,7 +35,7 @@ def main():
                        'rule': 'codepoints: EVERY Unicode code point c (incl. lone surrogates) as data name "_x"+c (cif_packet_create), block and frame code "x"+c through the storage layer '
                                'table key c, each against an independently written validity predicate; '
                                'cif_normalize on c, "a"+c+"b", c+U+0301+U+0323 (idempotence, equality for NFC/NFD/reordered marks); lookup under the case folding, the decomposition and the next code point. '
-                               'tuples: all ordered pairs (thorough: triples over a 60-element core) of the %d "interesting" code points (folding expands or de-normalises, one per combining class, Hangul, U+0345, sharp s, dotted/dotless i, Kelvin/Angstrom/Ohm, sigma forms, digraphs): '
+                               'tuples: all ordered pairs (thorough: all triples) of the %d "interesting" code points (folding expands or de-normalises, one per combining class, Hangul, U+0345, sharp s, dotted/dotless i, Kelvin/Angstrom/Ohm, sigma forms, digraphs): '
                                'idempotence and equivalence invariance of cif_normalize; packet, table, block, frame and item matching (get / duplicate create / remove) iff normalised forms are equal; most-recent key spelling; name/code length limits 2040-2050 code points with and without supplementary characters. '
                                'ascii-codes: all ordered pairs of 62 ASCII codes that a storage layer might take for numbers, NULL, booleans or patterns (10 / 010 / 1e1 / +10, 0x10, inf, null, %%, _, quotes), as block code, frame code, data name and table key: matched iff normalised forms are equal; '
                                'non-trivial = strings that normalisation changes, or lookups that must succeed under a different spelling' % ninteresting,
